@@ -210,3 +210,73 @@ PROPS['C07'] = dict(
                  'second crash: every image is reopened with the interception on and every step of that retry is imaged and reopened again',
                  'TLC explores the mechanism model (merge scan, marker, adoption one file-system operation per step, Crash anywhere, two faults) exhaustively for the bounded constants listed in mc_runs'],
 )
+
+FRAMING_CFG = '''SPECIFICATION Spec
+CONSTANTS
+  B = 16
+  H = 3
+  MaxRecs = {MaxRecs}
+  Lens = {Lens}
+INVARIANTS SeqRoundTrip RandomRoundTrip SizeIsOccupancy PositionsValid
+CHECK_DEADLOCK FALSE
+'''
+LEMMA_CFG = '''SPECIFICATION Spec
+CONSTANTS
+  B = 32768
+  H = 7
+  Lens = {Lens}
+  KVLens = {KVLens}
+INVARIANTS Lemmas EstimateSafe
+CHECK_DEADLOCK FALSE
+'''
+def _set(xs): return '{' + ', '.join(str(x) for x in xs) + '}'
+
+def framing_sig(e):
+    if e.get('ev') != 'case':
+        return None
+    r0 = e['recs'][0] if e['recs'] else {}
+    return ('case', e.get('io'), e.get('flush'), len(e.get('recs', [])), e.get('abs', 0) % 32768 > 32768 - 16 or e.get('abs', 0) % 32768 < 16,
+            r0.get('kind'), min(r0.get('size', 0) // 32768, 4), e.get('abs', 0) // 32768)
+
+PROPS['C11'] = dict(
+    level='model_checking',
+    mc=[dict(module='Framing', name='MC_Framing', cfg=FRAMING_CFG, consts={}, workers=12, timeout=1500, xmx='12g',
+             quick=dict(MaxRecs=3, Lens=_set(range(1, 41))), thorough=dict(MaxRecs=4, Lens=_set(list(range(1, 31)) + [33, 40, 45]))),
+        dict(module='FramingLemmas', name='MC_FramingReal', cfg=LEMMA_CFG, consts={}, workers=12, timeout=1500, xmx='12g',
+             quick=dict(Lens=_set([1, 7, 100, 32753, 32754, 32760, 32761, 32762, 65522, 100000]), KVLens=_set([0, 1, 64, 8192, 70000])),
+             thorough=dict(Lens=_set([1, 5, 6, 7, 8, 20, 100, 32740, 32752, 32753, 32754, 32755, 32759, 32760, 32761, 32762, 32763, 32767, 32768, 32769, 65521, 65522, 65523, 65529, 65536, 98283, 100000]),
+                           KVLens=_set([0, 1, 63, 64, 8191, 8192, 32768, 70000])))],
+    traces=[dict(profile='framing', spec='FramingTrace', enforce=['pos', 'size', 'seq', 'rand', 'xio'], sig=framing_sig,
+                 consts='  B = 32768\n  H = 7', trace_event='case',
+                 quick_seeds=1, thorough_seeds=1, tlc_timeout=2400, driver_timeout=2400)],
+    rule='distinct (back-end, single/flush, record count, start within 16 bytes of a block edge, record kind, blocks spanned, start block) tuples of real DataFile cases; trivial = none',
+    assumptions=['byte identity of payloads is established by the driver (bytes.Equal) and only its verdict reaches TLC; the model proves read(write(x)) = x on abstract cells',
+                 'the exhaustive byte-level check uses scaled constants B=16, H=3; the real constants are covered by the arithmetic lemmas at every offset and by the implementation cases',
+                 'payload length 0 cannot occur (a record has at least a 4-byte header) and is not modelled',
+                 'end states 1..7 of a block (1..11 of block 0) are unreachable through the writer'],
+)
+
+def damage_sig(e):
+    if e.get('ev') != 'damage':
+        return event_sig_local(e)
+    ext = e.get('file', '').split('.')[-1]
+    return ('damage', e.get('kind'), e.get('file', '').split('/')[0], ext, e.get('open'), e.get('scanerr'), e.get('folderr'),
+            tuple(sorted(set(e.get('geterrs', [])))))
+
+def event_sig_local(e):
+    if e.get('ev') == 'op':
+        return ('op', e.get('op'), e.get('err'))
+    return None
+
+PROPS['C12'] = dict(
+    level='fault_enumeration',
+    mc=[dict(module='Framing', name='MC_FramingDamage', cfg=FRAMING_CFG.replace('INVARIANTS SeqRoundTrip RandomRoundTrip SizeIsOccupancy PositionsValid', 'INVARIANTS DamageSafe TruncSafe'),
+             consts={}, workers=12, timeout=1500, xmx='12g',
+             quick=dict(MaxRecs=3, Lens=_set([1, 2, 5, 9, 10, 11, 12, 13, 14, 20, 27, 30])), thorough=dict(MaxRecs=3, Lens=_set(range(1, 36))))],
+    traces=[dict(profile='damage', spec='EngineTrace', enforce=['damage', 'res', 'bres', 'open'], sig=damage_sig, trace_event='damage',
+                 quick_seeds=1, thorough_seeds=1, tlc_timeout=2400, driver_timeout=2400)],
+    rule='distinct (damage kind, directory, file type, Open outcome, reader outcome, Fold outcome, set of Get outcomes) tuples over the injected damages; every injected damage is a distinct case (file, offset, bit); trivial = none',
+    assumptions=['CRC-32 is treated as collision-free in the model (a damaged chunk decodes to an error); the exhaustive bit-flip sweep on the real code is what exercises the real checksum',
+                 'bit flips: strict rule (original value or an error, not-found only for absent keys); cuts, overwrites and garbage may remove whole records undetectably by design: a value once written to that key, or not-found, or an error',
+                 'quick: every bit of header zones (first 40 bytes of each record, first 16 of each block, whole hint/marker files), one seeded bit per byte elsewhere in small files, every 37th byte in large ones; thorough: every bit of every byte of files up to 3000 bytes'],
+)
